@@ -1,5 +1,7 @@
 #!/bin/sh
 # usage: tools/flaky.sh <first seed> <last seed>   -> prints every run that is not a plain OK
+# The committed evidence files describe the default-seed runs: they are saved and restored.
+rm -rf /tmp/flaky_evidence_keep; cp -r /verif/evidence /tmp/flaky_evidence_keep
 for s in $(seq "$1" "$2"); do
   for id in C01 C02 C03 C04 C05 C06 C07 C08 C09 C10 C11 C12 C13 C14 C15 C16 C17 C18; do
     out=$(VERIF_SEED=$s /verif/check $id quick 2>&1); rc=$?
@@ -7,3 +9,4 @@ for s in $(seq "$1" "$2"); do
   done
   echo "seed $s done"
 done
+cp /tmp/flaky_evidence_keep/*.json /verif/evidence/; rm -rf /tmp/flaky_evidence_keep
